@@ -31,6 +31,7 @@ def _install_seams(spec):
 
     if spec.get("scandir_key") not in (None, ""):
         seams.install_scandir(spec["scandir_key"])
+    seams.install_pool(spec.get("pool_key") or spec.get("scandir_key") or "0")
     if spec.get("evict") is not None:
         seams.install_memo_eviction(spec["evict"])
     if spec.get("rp_evict") is not None:
